@@ -1,6 +1,8 @@
 package main
 
 import (
+	"fmt"
+	"go/token"
 	"strings"
 
 	"golang.org/x/tools/go/ssa"
@@ -193,4 +195,85 @@ func runC13PreviousGroups(c *Ctx) {
 		}
 	}
 	c.Floor("O15", "PROV reverse closures of Pipeline", n, 1)
+}
+
+// runC13LookupsFirst (O17): a forward operation that cannot find what it needs (job, node — a failed comma-ok
+// lookup) gives up with an error and records nothing; that is only harmless BEFORE its first state change. A
+// lookup-miss return that is reachable after the pod's status / node accounting was changed leaves a change that no
+// recorded operation can undo: Discard and Rollback do not know about it (a victim stays Releasing in the session,
+// later victim selection sees a smaller gang).
+func runC13LookupsFirst(c *Ctx, ob, prop string) {
+	n := 0
+	for _, name := range []string{"Evict", "Pipeline", "Allocate"} {
+		f := c.Anchor(ob, pkgFramework, "Statement", name)
+		if f == nil {
+			continue
+		}
+		isWrite := func(in ssa.Instruction) bool {
+			switch x := in.(type) {
+			case ssa.CallInstruction:
+				cal := calleeOf(x)
+				if cal == nil {
+					return false
+				}
+				switch cal.Name() {
+				case "UpdateTaskStatus", "UpdateTask", "AddTask", "RemoveTask", "ConsolidateSharedPodInfoToDifferentGPU":
+					return true
+				}
+			case *ssa.Store:
+				if fa, ok := x.Addr.(*ssa.FieldAddr); ok {
+					if _, isP := fa.X.(*ssa.Parameter); isP && fa.X == ssa.Value(f.Params[1]) {
+						return true
+					}
+				}
+			}
+			return false
+		}
+		writes := instrsIn(f, isWrite)
+		for _, b := range f.Blocks {
+			iff, ok := b.Instrs[len(b.Instrs)-1].(*ssa.If)
+			if !ok {
+				continue
+			}
+			// the branch tests the comma-ok of a lookup keyed by data of the POD (its job, its node): those can miss
+			// on real API state; a lookup keyed by the hostname argument cannot (callers pass nodes of the session)
+			cond, missSucc := iff.Cond, 1
+			if u, isNot := cond.(*ssa.UnOp); isNot && u.Op == token.NOT {
+				cond, missSucc = u.X, 0
+			}
+			ex, isEx := cond.(*ssa.Extract)
+			if !isEx || ex.Index != 1 {
+				continue
+			}
+			lk, isLk := ex.Tuple.(*ssa.Lookup)
+			if !isLk || !lk.CommaOk || rootParam(termOf(lk.Index)) != 1 {
+				continue
+			}
+			// the miss side gives up: it reaches a return without another branch
+			t := b.Succs[missSucc]
+			for len(t.Instrs) == 1 && len(t.Succs) == 1 {
+				t = t.Succs[0]
+			}
+			ret, isRet := t.Instrs[len(t.Instrs)-1].(*ssa.Return)
+			if !isRet {
+				continue
+			}
+			n++
+			var after ssa.Instruction
+			for _, w := range writes {
+				if _, _, found := reachAvoiding([]cfgPos{afterInstr(w)}, func(in ssa.Instruction) bool { return in == ssa.Instruction(iff) }, nil, nil); found {
+					after = w
+					break
+				}
+			}
+			detail := ""
+			if after != nil {
+				detail = "after the state change at " + c.P.Pos(instrPos(after))
+			}
+			c.Check(after == nil, ob, "MPT", fmt.Sprintf("%s: giving up because %s is missing comes before the first state change", funcKey(f), trunc(termOf(lk).String(), 90)), instrPos(ret), "no state change precedes the lookup",
+				"the operation gives up on a failed lookup "+detail+" without recording an operation: the change cannot be undone by Discard / Rollback — the pod keeps the new status in the session, and later decisions of the cycle (victim selection, gang counts) are taken on it")
+		}
+	}
+	c.Floor(ob, "MPT lookup-miss returns of the forward operations", n, 2)
+	_ = prop
 }
